@@ -402,8 +402,8 @@ def run(ctx):
         raise tlc.MachineryError("no joint records produced")
     # self-test of the binding (section 3.4): two corrupted copies of the first record must be rejected
     import copy
-    c1 = copy.deepcopy(records[0]); c1["id"] = 0; c1["gdot"][0] += 1
-    c2 = copy.deepcopy(records[0]); c2["id"] = -1; c2["qdirs"][-1]["gq"][0] += 1
+    c1 = copy.deepcopy(records[0]); c1["id"] = 0; c1["gdot"][0] += 977
+    c2 = copy.deepcopy(records[0]); c2["id"] = -1; c2["qdirs"][-1]["gq"][0] += 977
     bad, rt = batch_validate(ctx, "JointKernel", records + [c1, c2], {"Mode": '"trace"', "Thin": "TRUE"}, "jk_trace")
     if bad.pop(0, None) is None or bad.pop(-1, None) is None:
         raise tlc.MachineryError("self-test failed: a corrupted joint record was accepted by the trace specification")
